@@ -105,11 +105,11 @@ def unit_run_classification() -> Dict[str, Any]:
 def jobs(tier: str) -> List[tuple]:
     th = tier == 'thorough'
     js: List[tuple] = [(unit_run_classification, ())]
-    for w in ((8, 64) if th else (8,)):  # thorough: the narrowest and the widest width, both loops, with and without the last-ops list
+    for w in (C01py.WIDTHS if th else (8,)):  # thorough: every width, both loops, with and without the last-ops list
         for which in ('fast', 'featured'):
             for lo in ((False, True) if th else (True,)):
                 js.append((C01py.unit_run_loop, (which, w, lo)))
-    for w in ((16, 64) if th else (16,)):  # (every width of the native loops: C01 / C07 / C11 thorough)
+    for w in (C01c.WIDTHS if th else (16,)):
         js.append((C01c.unit_loop, ('run_flat_loop_impl', w, 0)))
         js.append((C01c.unit_loop, ('run_paged_loop_impl', w, 0)))
     return js
@@ -123,7 +123,7 @@ def body(tier: str, seed: int) -> int:
     python_functions(rep)
     FR = importlib.import_module('flipjump.interpreter.fjm_run')
     rep.add_function('flipjump.interpreter.fjm_run', 'run', Engine.func_lines(FR.run), 'profile in {False, True}; engines through contracts that may raise each exception class')
-    add_native_functions(rep, ('run_flat_loop_impl', 'run_paged_loop_impl'), 'quick: w=16; thorough: w=16 and w=64 (all widths under C01/C07/C11)')
+    add_native_functions(rep, ('run_flat_loop_impl', 'run_paged_loop_impl'), 'quick: w=16; thorough: all widths')
     native_assumptions(rep)
     rep.assume('[B only] fjm_run._run_native (finally block restoring op_counter from core.last_run_op_count) and Memory_run / build_run_result: exercised by the fault-injection runs, not under contract')
     rep.assume('not decided: an asynchronous KeyboardInterrupt delivered between two bytecodes of the python loops (no sequential program point)')
